@@ -55,31 +55,23 @@ func exitCode(kind int, t *Tape) int {
 	}
 }
 
-// GenOrdinal maps a process generation number to its incarnation ordinal (1, 2, ...).
+// GenOrdinal maps a process generation number to its incarnation ordinal (1, 2, ...), counting every
+// generation for which the emulator asked the supervisor to start something (successfully or not).
 func (w *World) GenOrdinal(gen int) int {
-	seen := map[int]bool{}
-	ord := 0
-	for _, p := range w.Sup.All() {
-		if !seen[p.Gen] {
-			seen[p.Gen] = true
-			ord++
+	seen := map[int]int{}
+	for _, q := range w.Sup.Requests() {
+		if q.Kind != "exec" {
+			continue
 		}
-		if p.Gen == gen {
-			// ordinal of first appearance
-			o := 0
-			s2 := map[int]bool{}
-			for _, q := range w.Sup.All() {
-				if !s2[q.Gen] {
-					s2[q.Gen] = true
-					o++
-				}
-				if q.Gen == gen {
-					return o
-				}
-			}
+		g := genOf(q.Name)
+		if _, ok := seen[g]; !ok {
+			seen[g] = len(seen) + 1
 		}
 	}
-	return ord + 1 // a generation not seen yet
+	if o, ok := seen[gen]; ok {
+		return o
+	}
+	return len(seen) + 1 // a generation not seen yet
 }
 
 func scenC06(r *Run, job *Job) {
@@ -125,7 +117,7 @@ func scenC06(r *Run, job *Job) {
 		desc = fmt.Sprintf("ext e%d %s", cell.party, extPointNames[cell.point])
 		if cell.point == 5 {
 			errs := []error{os.ErrPermission, os.ErrNotExist, errors.New("exec format error")}
-			w.Sup.ExecFail[fmt.Sprintf("extension-e%d-", cell.party)] = errs[cell.kind]
+			w.Sup.ExecFail[fmt.Sprintf("extension-e%d-1\x00", cell.party)] = errs[cell.kind]
 		}
 	}
 	e.BehavFor = BehavForExts(exts, func(p *Proc, b *Behav) {
